@@ -99,17 +99,13 @@ theorem vStep_trans {s s' : VSt} {e : Ev} (h : vStep s e = .ok s') : VTrans s s'
           cases h; exact .eff e.tid _ rfl rfl
       · -- collecting
         split at h
-        · split at h
-          · cases h
-          · next c _ =>
-            rw [guard_ok] at h; obtain ⟨_, h⟩ := h
-            cases h
-            refine .eff e.tid (.read c) ?_ ?_
-            · simp only []; split <;> rfl
-            · simp only []; split <;> rfl
+        · rw [guard_ok] at h; obtain ⟨_, h⟩ := h
+          cases h; exact .frame rfl rfl
         · rw [guard_ok] at h; obtain ⟨_, h⟩ := h
           rw [guard_ok] at h; obtain ⟨_, h⟩ := h
-          cases h; exact .frame rfl rfl
+          split at h
+          · cases h
+          · cases h; exact .frame rfl rfl
 
 theorem vItem_trans {s s' : VSt} {it : Item} (h : vItem s it = .ok s') : VTrans s s' := by
   cases it with
